@@ -71,8 +71,9 @@ def main(argv=None):
     from aw_core.models import Event
 
     ck.run_witnesses(["w08", "w21", "w22"])
-    ck.prove(extra_targets=["Bridge/BridgeCommit.v", "Model/CommitDriver.v", "Props/C18api.v", "Model/CommitApiDriver.v"],
-             gen_kernels=["commit", "conditional_commit", "sqlite_scripts"])
+    ck.prove(extra_targets=["Bridge/BridgeCommit.v", "Model/CommitDriver.v", "Props/C18api.v", "Model/CommitApiDriver.v",
+                            "Props/C18fault.v", "Bridge/BridgeCommitFault.v", "Model/CommitFaultDriver.v"],
+             gen_kernels=["commit", "conditional_commit", "sqlite_scripts", "commit_fault", "conditional_commit_fault"])
     have_driver = ck.driver()
 
     quick = ck.tier == "quick"
@@ -95,6 +96,10 @@ def main(argv=None):
     lib18.big_writes(ck, sq, Event)
     if have_driver:
         lib18.compare_with_model(ck, "C18", pending, wire)
+    # round 5: histories in which the ENGINE raises (a COMMIT, a statement, a bulk statement part-way), the caller
+    # survives and carries on; oracle relative to the last flush that happened (harness/c18_fault.py)
+    from . import c18_fault
+    c18_fault.run_faults(ck, sq, Event, have_driver)
     if not quick:
         real_time_run(ck, sq, Event)
 
